@@ -128,6 +128,7 @@ class Resolver:
         self.prog = prog
         self._scopes: dict[str, Scope] = {}
         self.partial_nodes: dict[int, ast.Call] = {}
+        self.partial_ctx: dict[int, Func | None] = {}
         self.lambda_nodes: dict[int, ast.Lambda] = {}
         self.unresolved: list[str] = []
         self.facts: frozenset = frozenset()   # (atom text, bool) guard facts assumed while resolving (see assuming())
@@ -320,6 +321,7 @@ class Resolver:
                     continue
                 inner = self.resolve(e.args[0], f, u, depth + 1, _seen)
                 self.partial_nodes[id(e)] = e
+                self.partial_ctx[id(e)] = f
                 for i in inner:
                     out.add(T("partial", "", parts=(i,), kw=tuple((k.arg, id(k.value)) for k in e.keywords if k.arg),
                               node_id=id(e)))
